@@ -244,6 +244,11 @@ class KexDH:  # pragma: nocover
                         ca_key_n_len = ca_key_n_len - 1  # Subtract the 0x04 byte.
                         ca_key_n_len = int(ca_key_n_len / 2)  # Divide by 2 since the modulus is the size of either the X or Y value.
 
+                    # The key type names the curve, and hence the exact size (the P-521 coordinates occupy 66 bytes, which would otherwise be reported as 528 bits).
+                    curve_bits = ca_key_type[len("ecdsa-sha2-nistp"):]
+                    if curve_bits.isdigit() and (int(curve_bits) + 7) // 8 == ca_key_n_len:
+                        self.__ca_n_bits = int(curve_bits)
+
 
         else:
             self.out.d("Certificate type %u found; this is not usually valid in the context of a host key!  Skipping it..." % cert_type)
